@@ -496,3 +496,30 @@ Proof.
     subst. cbn. rewrite (proj2 (Z.ltb_lt 0 unit) Hu).
     split; [intros t []|lia].
 Qed.
+
+(** * C12: the artifact tree names the files that are there afterwards *)
+Lemma listed_is_surviving : forall n pre, all_uploadable n = true -> listed_files pre n = surviving_files pre n.
+Proof.
+  fix IH 1. intros [nm k|nm cs] pre H.
+  - cbn in *. rewrite H. cbn. destruct (editor_temp nm); reflexivity.
+  - cbn [listed_files surviving_files]. cbn [all_uploadable] in H.
+    induction cs as [|c cs IHcs]; [reflexivity|].
+    cbn [forallb] in H. apply andb_true_iff in H as [H1 H2].
+    cbn [flat_map]. f_equal; [apply IH; exact H1|apply IHcs; exact H2].
+Qed.
+
+(** When the run directory holds only regular files and symbolic links, the
+    files in the artifact tree are exactly the files that survive the removal
+    of the non-uploadable ones. *)
+Theorem listed_tree_is_what_survives cs :
+  forallb all_uploadable cs = true -> listed_in cs = surviving_in cs.
+Proof.
+  unfold listed_in, surviving_in. induction cs as [|c cs IH]; intros H; [reflexivity|].
+  cbn [forallb] in H. apply andb_true_iff in H as [H1 H2]. cbn [flat_map].
+  f_equal; [apply listed_is_surviving; exact H1|apply IH; exact H2].
+Qed.
+
+(** Editor temporaries are neither listed nor kept, whatever their kind. *)
+Lemma editor_temp_neither nm k pre : editor_temp nm = true ->
+  listed_files pre (NFile nm k) = [] /\ surviving_files pre (NFile nm k) = [].
+Proof. intros H; cbn; rewrite H, andb_false_r; auto. Qed.
